@@ -288,8 +288,9 @@ structure Rules where
   assert : Ty → Opnd → Res Opnd
   /-- arguments against parameters (after all arguments have been checked on their own) -/
   call : List STy → List Opnd → Res Unit
-  /-- a call used as a value -/
-  callValue : List STy → Res Opnd
+  /-- a call used as a single value; the flag says that the call is the operand of a conversion `T(f(…))`
+      (typecheck.callValue does not look at that context) -/
+  callValue : Bool → List STy → Res Opnd
   /-- `decl = true`: `var v T = e`; `false`: `v = e`. The result is the type the variable has afterwards. -/
   assign : Bool → Shape → Ty → Opnd → Res Ty
   define : Opnd → Res Ty
@@ -337,33 +338,34 @@ def BinOp.propagates : BinOp → Bool
 mutual
   /-- post-order check of an expression. `z` is the "propagation zone": the destination type of the
       enclosing `var v T = e` / `v = e` / `v op= e` when the expression is reached from the source
-      through arithmetic, shift and (non-boolean) unary nodes only. Only yaegi's rules look at it. -/
-  def checkE (R : Rules) (env : Env) (z : Option Ty) : Expr → Res Opnd
+      through arithmetic, shift and (non-boolean) unary nodes only. Only yaegi's rules look at it.
+      `cv`: the expression is the operand of a conversion (only the call rule looks at it). -/
+  def checkE (R : Rules) (env : Env) (z : Option Ty) (cv : Bool) : Expr → Res Opnd
     | .var i => match env.vars[i]? with
       | some t => .ok ⟨t, .none⟩
       | none => .err
     | .lit u v f => .ok (litOpnd u v f)
     | .nil => .ok ⟨.nil, .none⟩
-    | .un op e => do let x ← checkE R env (if op.propagates then z else none) e; R.un op x
-    | .recv e => do let x ← checkE R env none e; R.recv x
+    | .un op e => do let x ← checkE R env (if op.propagates then z else none) false e; R.un op x
+    | .recv e => do let x ← checkE R env none false e; R.recv x
     | .bin op a b => do
       let zc := if op.propagates then z else none
-      let x ← checkE R env zc a; let y ← checkE R env zc b; R.bin op zc x y
-    | .cmp op a b => do let x ← checkE R env none a; let y ← checkE R env none b; R.cmp op x y
-    | .shift op a b => do let x ← checkE R env z a; let y ← checkE R env z b; R.shift op x y
+      let x ← checkE R env zc false a; let y ← checkE R env zc false b; R.bin op zc x y
+    | .cmp op a b => do let x ← checkE R env none false a; let y ← checkE R env none false b; R.cmp op x y
+    | .shift op a b => do let x ← checkE R env z false a; let y ← checkE R env z false b; R.shift op x y
     | .call f args => match env.funcs[f]? with
       | none => .err
       | some sg => do
         let xs ← checkArgs R env args
         R.call sg.params (xs.map (·.2))
-        R.callValue sg.rets
-    | .conv t e => do let x ← checkE R env none e; R.conv t x
-    | .index a i => do let x ← checkE R env none a; let y ← checkE R env none i; R.index x y
-    | .assert t e => do let x ← checkE R env none e; R.assert t x
+        R.callValue cv sg.rets
+    | .conv t e => do let x ← checkE R env none true e; R.conv t x
+    | .index a i => do let x ← checkE R env none false a; let y ← checkE R env none false i; R.index x y
+    | .assert t e => do let x ← checkE R env none false e; R.assert t x
   def checkArgs (R : Rules) (env : Env) : Args → Res (List (Shape × Opnd))
     | .nil => .ok []
     | .cons e rest => do
-      let x ← checkE R env none e
+      let x ← checkE R env none false e
       let xs ← checkArgs R env rest
       .ok ((shapeOf e x, x) :: xs)
 end
@@ -375,34 +377,34 @@ mutual
   /-- check of a statement; returns the variables in scope after it -/
   def checkS (R : Rules) (env : Env) : Stmt → Res (List Ty)
     | .decl t e => do
-      let x ← checkE R env (zoneOf t) e
+      let x ← checkE R env (zoneOf t) false e
       let t' ← R.assign true (shapeOf e x) t x
       .ok (env.vars ++ [t'])
     | .declz t => .ok (env.vars ++ [t])
     | .define e => do
-      let x ← checkE R env none e
+      let x ← checkE R env none false e
       let t ← R.define x
       .ok (env.vars ++ [t])
     | .defineOk t e => do
-      let x ← checkE R env none e
+      let x ← checkE R env none false e
       let y ← R.assert t x
       .ok (env.vars ++ [y.ty, .s (.basic .bool)])
     | .assign i e => match env.vars[i]? with
       | none => .err
       | some t => do
-        let x ← checkE R env (zoneOf t) e
+        let x ← checkE R env (zoneOf t) false e
         let t' ← R.assign false (shapeOf e x) t x
         .ok (env.vars.set i t')
     | .opassign op i e => match env.vars[i]? with
       | none => .err
       | some t => do
-        let x ← checkE R env (zoneOf t) e
+        let x ← checkE R env (zoneOf t) false e
         R.opassign op t x
         .ok env.vars
     | .shassign op i e => match env.vars[i]? with
       | none => .err
       | some t => do
-        let x ← checkE R env (zoneOf t) e
+        let x ← checkE R env (zoneOf t) false e
         R.shassign op t x
         .ok env.vars
     | .incdec i => match env.vars[i]? with
@@ -411,8 +413,8 @@ mutual
         R.incdec t
         .ok env.vars
     | .send c e => do
-      let x ← checkE R env none c
-      let y ← checkE R env none e
+      let x ← checkE R env none false c
+      let y ← checkE R env none false e
       R.send x y
       .ok env.vars
     | .callS f args => match env.funcs[f]? with
@@ -422,13 +424,13 @@ mutual
         R.call sg.params (xs.map (·.2))
         .ok env.vars
     | .ifS c t e => do
-      let x ← checkE R env none c
+      let x ← checkE R env none false c
       let _ ← checkB R env t
       let _ ← checkB R env e
       R.cond x
       .ok env.vars
     | .forS c b => do
-      let x ← checkE R env none c
+      let x ← checkE R env none false c
       let _ ← checkB R env b
       R.cond x
       .ok env.vars
